@@ -31,8 +31,18 @@ ASSUMPTIONS = ["sizes are swarm-varied: about 2 % of the histories have 9-40 lis
                "single-threaded: re-entrancy is the interleaving; the baton scheduler is idle"]
 
 # event types are process-global and must have unique names: fixed pools
+class _ScopeA:
+    CHANGED = EventType("VF_C08_CHANGED")
+
+
+class _ScopeB:
+    CHANGED = EventType("VF_C08_CHANGED")     # same name, other defining class
+
+
 def _make_types():
-    plain = [EventType("VF_C08_T%d" % i) for i in range(4)]
+    # two of the four plain types share their name but are defined in
+    # different classes: they are different event types
+    plain = [EventType("VF_C08_T0"), _ScopeA.CHANGED, _ScopeB.CHANGED, EventType("VF_C08_T3")]
     decls = [
         {"a": int}, {"a": int, "b": str}, {"x": float}, {"a": int, "b": float, "c": str},
         {}, {"s": str}, {"l": list, "d": dict}, {"a": bool},
